@@ -79,9 +79,10 @@ def build(name, sources, extra_flags=(), compiler="g++", openmp=True, timeout=90
     out = os.path.join(BIN, "%s-%s" % (name, h.hexdigest()[:16]))
     if os.path.exists(out):
         return out
-    for old in glob.glob(os.path.join(BIN, name + "-*")):   # keep the cache small
+    for old in glob.glob(os.path.join(BIN, name + "-*")):   # keep the cache small (but never pull a binary from under a concurrent check)
         try:
-            os.remove(old)
+            if time.time() - os.path.getmtime(old) > 6 * 3600:
+                os.remove(old)
         except OSError:
             pass
     tmp = out + ".tmp%d" % os.getpid()
